@@ -285,9 +285,27 @@ ParseOut parse(const char* s, size_t n) {
 ParseOut parse(const std::string& t) { return parse(t.data(), t.size()); }
 
 // ------------------------------------------------------------------ writer
+static bool utf8_decode(const std::string& s, size_t i, unsigned& cp, size_t& len) {
+  unsigned char c = (unsigned char)s[i];
+  auto cont = [&](size_t k) { return i + k < s.size() && (((unsigned char)s[i + k]) & 0xC0) == 0x80; };
+  if (c >= 0xC2 && c <= 0xDF && cont(1)) { cp = ((c & 0x1Fu) << 6) | ((unsigned char)s[i + 1] & 0x3Fu); len = 2; return true; }
+  if (c >= 0xE0 && c <= 0xEF && cont(1) && cont(2)) { cp = ((c & 0x0Fu) << 12) | (((unsigned char)s[i + 1] & 0x3Fu) << 6) | ((unsigned char)s[i + 2] & 0x3Fu); len = 3; return cp >= 0x800 && !(cp >= 0xD800 && cp <= 0xDFFF); }
+  if (c >= 0xF0 && c <= 0xF4 && cont(1) && cont(2) && cont(3)) { cp = ((c & 0x07u) << 18) | (((unsigned char)s[i + 1] & 0x3Fu) << 12) | (((unsigned char)s[i + 2] & 0x3Fu) << 6) | ((unsigned char)s[i + 3] & 0x3Fu); len = 4; return cp >= 0x10000 && cp <= 0x10FFFF; }
+  return false;
+}
 void write_string(const std::string& s, std::string& out, sim::Rng* r) {
   out += '"';
-  for (unsigned char c : s) {
+  for (size_t idx = 0; idx < s.size(); idx++) {
+    unsigned char c = (unsigned char)s[idx];
+    if (r && c >= 0xC2) {   // a well-formed multi-byte character may be spelled \uXXXX or as a surrogate pair
+      unsigned cp; size_t len;
+      if (utf8_decode(s, idx, cp, len) && r->chance(1, 2)) {
+        char b[16];
+        if (cp < 0x10000) snprintf(b, sizeof b, r->chance(1, 2) ? "\\u%04x" : "\\u%04X", cp);
+        else { unsigned v = cp - 0x10000; snprintf(b, sizeof b, "\\u%04x\\u%04X", 0xD800 + (v >> 10), 0xDC00 + (v & 0x3FF)); }
+        out += b; idx += len - 1; continue;
+      }
+    }
     if (r && c < 0x80 && r->chance(1, 12)) { char b[8]; snprintf(b, sizeof b, "\\u%04x", c); out += b; continue; }
     switch (c) {
       case '"': out += "\\\""; break;
@@ -326,7 +344,15 @@ void write(const JVal& v, std::string& out, const WriteOpts& o) {
     case JVal::True: out += "true"; break;
     case JVal::Uint: snprintf(b, sizeof b, "%llu", (unsigned long long)v.u); out += b; break;
     case JVal::Sint: snprintf(b, sizeof b, "%lld", (long long)v.i); out += b; break;
-    case JVal::Real: write_double(v.u, out); break;
+    case JVal::Real:
+      if (o.escape_more && o.ws_rng && o.ws_rng->chance(1, 3)) {   // other spellings of the same double
+        sim::Rng& r = *o.ws_rng;
+        double d; memcpy(&d, &v.u, 8);
+        char t[64];
+        if (d == 0) { static const char* z[] = {"0e0", "0.000", "0E-7", "0.0e+5", "0.00E5", "0e-0"}; if (std::signbit(d)) out += '-'; out += z[r.below(6)]; }
+        else { snprintf(t, sizeof t, r.chance(1, 2) ? "%.20e" : "%.19E", d); std::string x = t; if (r.chance(1, 2)) { size_t e = x.find_first_of("eE"); if (e != std::string::npos && x[e + 1] == '+' && r.chance(1, 2)) x.erase(e + 1, 1); } out += x; }
+      } else write_double(v.u, out);
+      break;
     case JVal::Str: write_string(v.s, out, o.escape_more ? o.ws_rng : nullptr); break;
     case JVal::Arr:
       out += '[';
@@ -398,8 +424,18 @@ uint64_t gen_double_bits(sim::Rng& r, bool allow_nonfinite) {
                                    1.7976931348623157e308, 4.9406564584124654e-324, 9007199254740992.0, 9007199254740993.0, 1e15, 1e16, 1e17,
                                    3.141592653589793, 2.5e-7, 1e-7, 123e45, 0.3, 1e100, 4294967296.0, 18446744073709551616.0, -9223372036854775808.0};
   uint64_t b;
+  if (allow_nonfinite && r.chance(1, 4)) {   // +-inf, quiet/signalling NaNs with payloads
+    static const uint64_t nf[] = {0x7ff0000000000000ull, 0xfff0000000000000ull, 0x7ff8000000000000ull, 0xfff8000000000000ull, 0x7ff0000000000001ull, 0x7fffffffffffffffull, 0xfff4000000000000ull};
+    return nf[r.below(7)];
+  }
   for (;;) {
-    unsigned m = (unsigned)r.below(10);
+    unsigned m = (unsigned)r.below(11);
+    if (m == 10) {   // integer-valued and decimal-shifted doubles: d * 10^k (trailing-zero and leading-zero print paths)
+      double d = (double)r.range(1, r.chance(1, 2) ? 9 : 99999) * std::pow(10.0, (double)r.range(-12, 24));
+      if (r.chance(1, 3)) d = -d;
+      memcpy(&b, &d, 8);
+      return b;
+    }
     if (m < 3) { double d = special[r.below(sizeof(special) / sizeof(special[0]))]; memcpy(&b, &d, 8); }
     else if (m < 5) { double d = (double)(int64_t)r.range(-100000, 100000) / (double)(1 + r.below(1000)); memcpy(&b, &d, 8); }
     else if (m < 6) { double d = (double)(int64_t)r.range(-1000, 1000); memcpy(&b, &d, 8); }
@@ -429,6 +465,10 @@ std::string gen_string(sim::Rng& r, const GenOpts& o) {
   unsigned mode = (unsigned)r.below(7);
   for (size_t i = 0; i < len; i++) {
     unsigned char c;
+    if (o.wild_strings && mode == 5 && r.chance(1, 2)) {   // well-formed 2/3/4-byte UTF-8 characters
+      static const char* u8[] = {"\xc3\xa9", "\xce\xa9", "\xe4\xb8\xad", "\xe2\x82\xac", "\xf0\x9f\x98\x80", "\xf0\x90\x80\x80", "\xf4\x8f\xbf\xbf", "\xef\xbf\xbd", "\xdf\xbf", "\xe0\xa0\x80"};
+      s += u8[r.below(10)]; continue;
+    }
     if (o.wild_strings && mode == 6) { static const unsigned char six[] = {0, 1, 2, 3, 4, 5, 6, 7, 0x0b, 0x0e, 0x0f, 0x10, 0x11, 0x15, 0x1a, 0x1b, 0x1e, 0x1f}; c = six[r.below(sizeof six)]; s += (char)c; continue; }  // every byte expands 6x
     if (!o.wild_strings || mode < 2) c = (unsigned char)('a' + r.below(26));
     else if (mode == 2) { static const char sp[] = "\"\\/\b\f\n\r\t {}[]:,\x01\x1f\x7f"; c = (unsigned char)sp[r.below(sizeof(sp) - 1)]; }
